@@ -781,8 +781,8 @@ class MessageManager(ClientLike):
 
     def send_traffic(self):
         """Send MESSAGE_TRAFFIC"""
+        self.logger.debug("MESSAGE_TRAFFIC")
         with self.sending_traffic_ctx():
-            self.logger.debug("MESSAGE_TRAFFIC")
             data = cd.MDF_MESSAGE_TRAFFIC()
             now = time.perf_counter()
             sub_seqno = 1
